@@ -15,7 +15,10 @@ CONSTANTS Contracts <- McContracts
  DepthLimit = 1024
  DevS = FALSE
  DevG = FALSE
+ JumpDests = {"next", "far", "s0", "s1", "s2"}
+ ShapeAt <- McShapeAt
+ DevJ = FALSE
  DevC = FALSE
 INVARIANTS StaticIsNoop GasWithinSupplied DepthBound NoCrash JournalMarksOrdered CodeOnlyByCreation
-PROPERTIES FailedFrameIsNoop OkKeepsEffects GasNeverGrows CollisionIsNoop
+PROPERTIES JumpIsFrameLocal FailedFrameIsNoop OkKeepsEffects GasNeverGrows CollisionIsNoop
 CHECK_DEADLOCK FALSE
